@@ -10,16 +10,17 @@ ID = 'C17'
 RULE = ('corpus, special and small symmetric molecules x re-descriptions (new numbers, shuffled insertion) x parameter grid '
         '(radii 1-6, length 2^5..2^12, active bits 1-4, bit pairs 0-5); oracle: own simple-path enumerator (plain DFS) and '
         'iterated neighbourhood hasher built only from the documented identifier definitions, bit folding recomputed from '
-        'the hash set; invariance of hash sets, bit sets, arrays and fragment dictionaries under renumbering; non-trivial = '
+        'the hash set; invariance of hash sets, bit sets, arrays and fragment dictionaries under renumbering and under the history of '
+        'the object (fingerprint, in-place normaliser / label edit, fingerprint again vs a freshly built copy); non-trivial = '
         'molecule with a ring or a repeated fragment, distinct by (canonical string, parameters)')
 ASSUMPTIONS = ['CachedMethods compatibility shim', 'PYTHONHASHSEED is irrelevant: only tuples of ints are hashed']
 CONFIG = {
     'quick': {'shards': 16, 'budget_s': 150, 'n_mols': 900, 'n_params': 5, 'k_renum': 2,
               'floors': {'evaluations': 15000, 'distinct_nontrivial': 3000, 'linear.compared': 4000, 'morgan.compared': 4000,
-                         'folding.compared': 6000, 'renumbered.compared': 1200, 'dicts.compared': 800}},
+                         'folding.compared': 6000, 'renumbered.compared': 1200, 'dicts.compared': 800, 'history.steps': 1200}},
     'thorough': {'shards': 16, 'budget_s': 1800, 'n_mols': 4200, 'n_params': 20, 'k_renum': 6,
                  'floors': {'evaluations': 300000, 'distinct_nontrivial': 50000, 'linear.compared': 80000, 'morgan.compared': 80000,
-                            'folding.compared': 120000, 'renumbered.compared': 25000, 'dicts.compared': 10000}},
+                            'folding.compared': 120000, 'renumbered.compared': 25000, 'dicts.compared': 10000, 'history.steps': 6000}},
 }
 
 
@@ -185,6 +186,62 @@ def check(ctx, m, src, cfg, rng):
                 return
 
 
+IN_PLACE = ['clean_isotopes', 'neutralize', 'standardize', 'fix_resonance', 'kekule', 'thiele', 'canonicalize', 'clean_stereo',
+            'charge-edit', 'isotope-edit', 'radical-edit']
+
+
+def fingerprints(m):
+    return {'linear_hash_set': sorted(m.linear_hash_set(1, 4)), 'morgan_hash_set': sorted(m.morgan_hash_set(1, 3)),
+            'linear_bit_set': sorted(m.linear_bit_set(1, 4, 1024, 2, 3)), 'morgan_bit_set': sorted(m.morgan_bit_set(1, 3, 1024, 2)),
+            'linear_hash_smiles': sorted(m.linear_hash_smiles(1, 3)), 'morgan_hash_smiles': sorted(m.morgan_hash_smiles(1, 2))}
+
+
+def history_independence(ctx, m, src, rng):
+    """a fingerprint is a function of the structure as it is now, not of what was computed on the object before: fingerprints are
+    taken, the molecule is changed in place (normalisers, aromaticity conversion, label edits), fingerprints are taken again on the
+    same object and compared with those of a molecule built afresh from the changed atoms and bonds"""
+    obj = m.copy()
+    G._fix_slots(obj)
+    try:
+        fingerprints(obj)                     # fill whatever the library caches
+    except Exception:
+        return
+    for op in rng.sample(IN_PLACE, 4):
+        try:
+            if op.endswith('-edit'):
+                n = rng.choice(list(obj._atoms))
+                a = obj._atoms[n]
+                with obj:
+                    if op == 'charge-edit':
+                        obj.atom(n).charge = 0 if a.charge else rng.choice((1, -1))
+                    elif op == 'radical-edit':
+                        obj.atom(n).is_radical = not a.is_radical
+                    else:
+                        obj.atom(n).isotope = None if a.isotope else rng.choice(sorted(a.isotopes_masses))
+            else:
+                getattr(obj, op)()
+        except Exception:
+            ctx.count('history.operation-rejected')
+            return
+        ctx.count('history.steps')
+        ctx.evaluations += 1
+        try:
+            got = fingerprints(obj)
+            fresh, _, bad = T.redescribe(obj, rng, mapping={n: n for n in obj._atoms})
+            want = fingerprints(fresh)
+        except Exception as e:
+            ctx.count('history.not-comparable')
+            return
+        for name in got:
+            if name.endswith('smiles') and bad:
+                continue
+            if got[name] != want[name]:
+                ctx.violation('fingerprint-depends-on-object-history/%s' % name.split('_')[0],
+                              '%s after %s: %s of the edited object differs from a freshly built copy (%d vs %d entries)' % (
+                                  src, op, name, len(got[name]), len(want[name])), {'smiles': src, 'op': op})
+                return
+
+
 def worker(ctx):
     cfg = CONFIG[ctx.tier]
     rng = ctx.rng
@@ -207,6 +264,8 @@ def worker(ctx):
         except Exception:
             continue
         check(ctx, m, s, cfg, rng)
+        if rng.random() < .5:
+            history_independence(ctx, m, s, rng)
 
 
 def replay(ctx, mechanism, w):
